@@ -35,4 +35,36 @@ MUTANTS = [
     dict(name="C05-strict-walk-stays-green", prop="C05", file="jellyfysh/lifting/inside_first_lifting.py", only="Inside",
          old="if self._random_position <= summed_lifting_rate:", new="if self._random_position < summed_lifting_rate:",
          expect=0),
+    # ---- C06 (heap.c)
+    dict(name="C06-parent-minus-one", prop="C06", file="jellyfysh/scheduler/heap_scheduler/heap.c", only="insert",
+         old="        parent_position = position >> 1u;\n    }", new="        parent_position = position - 1;\n    }"),
+    dict(name="C06-size-check-off-by-one", prop="C06", file="jellyfysh/scheduler/heap_scheduler/heap.c", only="heap.c",
+         old="if (heap->length + 1 > heap->size) {", new="if (heap->length > heap->size) {"),
+    dict(name="C06-compare-remainder-first", prop="C06", file="jellyfysh/scheduler/heap_scheduler/heap.c", only="insert",
+         old="""    while (time_quotient < heap->heap_entries[parent_position].time_quotient ||
+              (time_quotient == heap->heap_entries[parent_position].time_quotient
+               && time_remainder < heap->heap_entries[parent_position].time_remainder)) {""",
+         new="""    while (time_remainder < heap->heap_entries[parent_position].time_remainder ||
+              (time_remainder == heap->heap_entries[parent_position].time_remainder
+               && time_quotient < heap->heap_entries[parent_position].time_quotient)) {"""),
+    dict(name="C06-insert-forgets-counter", prop="C06", file="jellyfysh/scheduler/heap_scheduler/heap.c", only="insert",
+         old="    heap->heap_entries[position].counter = counter;\n", new="    heap->heap_entries[position].counter = 0;\n"),
+    dict(name="C06-second-child-vs-cache", prop="C06", file="jellyfysh/scheduler/heap_scheduler/heap.c", only="bubble_down",
+         old="""               (heap->heap_entries[child_position + 1].time_quotient
+                   < heap->heap_entries[compare_position].time_quotient ||""",
+         new="""               (heap->heap_entries[child_position + 1].time_quotient
+                   < heap->heap_entries[heap->length].time_quotient ||"""),
+    dict(name="C06-child-plus-one", prop="C06", file="jellyfysh/scheduler/heap_scheduler/heap.c", only="bubble_down",
+         old="child_position = position << 1u;", new="child_position = position + 1;"),
+    dict(name="C06-root-forgets-decrement", prop="C06", file="jellyfysh/scheduler/heap_scheduler/heap.c", only="root",
+         old="heap->heap_entries[1] = heap->heap_entries[--(heap->length)];", new="heap->heap_entries[1] = heap->heap_entries[heap->length - 1];"),
+    dict(name="C06-second-child-le-stays-green", prop="C06", file="jellyfysh/scheduler/heap_scheduler/heap.c", only="bubble_down",
+         old="if (child_position + 1 < heap->length &&", new="if (child_position + 1 <= heap->length &&", expect=0),
+    dict(name="C06-delete-skips-moved-entry", prop="C06", file="jellyfysh/scheduler/heap_scheduler/heap.c", only="delete_events",
+         old="""            heap->heap_entries[current_index] = heap->heap_entries[--(heap->length)];
+            continue;""", new="""            heap->heap_entries[current_index] = heap->heap_entries[--(heap->length)];"""),
+    dict(name="C06-heapify-starts-too-low", prop="C06", file="jellyfysh/scheduler/heap_scheduler/heap.c", only="delete_events",
+         old="for (uint index = heap->length / 2; index >= 1; index--) {", new="for (uint index = heap->length / 4; index >= 1; index--) {"),
+    dict(name="C06-entry-off-by-one", prop="C06", file="jellyfysh/scheduler/heap_scheduler/heap.c", only="entry",
+         old="if (index + 1 < heap->length) {", new="if (index + 1 <= heap->length) {"),
 ]
